@@ -111,8 +111,26 @@ pub enum FixU<'a> {
     Ki,
     #[command(name = "アイ")]
     A,
+    // octet 0xBF (the last continuation value) inside the shared part / at the point of divergence
+    #[command(name = "俄a")]
+    E1,
+    #[command(name = "俊b")]
+    E2,
+    #[command(name = "топ")]
+    T1,
+    #[command(name = "той")]
+    T2,
+    // ... the same with the 0xBF candidate declared last, and with 0xBF as the shared second octet behind a shared character
+    #[command(name = "рой")]
+    R1,
+    #[command(name = "роп")]
+    R2,
+    #[command(name = "з俄")]
+    Z1,
+    #[command(name = "з俊")]
+    Z2,
 }
-pub const FIXU_NAMES: [&str; 12] = ["向上", "向下", "€a", "₭b", "𐍈x", "𐍉y", "𐎈z", "ña", "òb", "かな", "きの", "アイ"];
+pub const FIXU_NAMES: [&str; 20] = ["向上", "向下", "€a", "₭b", "𐍈x", "𐍉y", "𐎈z", "ña", "òb", "かな", "きの", "アイ", "俄a", "俊b", "топ", "той", "рой", "роп", "з俄", "з俊"];
 
 /// Short options whose character comes from a non-ASCII field identifier (generated) or is given explicitly,
 /// one per UTF-8 length.
